@@ -13,7 +13,9 @@ export MDX_REPO=$W/repo
 cd $W/verif
 for d in /verif/seeded/${1:-}*/; do
   id=$(basename $d); p=${id%%-*}
-  rsync -a --delete $W/repo.orig/contracts/ $W/repo/contracts/
+  # restore by content WITHOUT preserving modification times: a restored file must look new to cargo, otherwise
+  # the crate a previous change touched would not be rebuilt
+  rsync -rlD --delete --checksum $W/repo.orig/contracts/ $W/repo/contracts/
   # source part of the patch only
   python3 - "$d/patch.diff" > $W/src.diff <<'PY'
 import sys,re
@@ -26,5 +28,5 @@ PY
   out=$(bin/check $p 2>&1 | grep "^VIOLATION\|^OK" | head -1)
   echo "$id | $out"
 done
-rsync -a --delete $W/repo.orig/contracts/ $W/repo/contracts/
+rsync -rlD --delete --checksum $W/repo.orig/contracts/ $W/repo/contracts/
 echo "unchanged tree: $(bin/check C18 2>&1 | tail -1)"
